@@ -19,15 +19,6 @@ func (m *c05Mon) after(h *H, s *step) {
 	c, w, r := h.c, h.w, s.R
 	faulted := r.FaultFired() || r.Panic != nil || r.Err != nil
 	name := w.CookieName()
-	// what was issued stays issued: an answer handed back earlier (its Set-Cookie, its Location) must not be rewritten
-	// by a later check - otherwise the id one client receives is the id made for another
-	for _, prev := range h.steps {
-		if prev != s && w.Svc == nil {
-			if d := prev.R.ChangedSinceReturn(); d != "" {
-				c.Violation("issued-answer-rewritten-by-later-check", "the answer of step #%d changed while step #%d was processed: %s", prev.N, s.N, d)
-			}
-		}
-	}
 	for _, sc := range r.SetCookies() {
 		// attributes of every Set-Cookie the filter emits
 		if !strings.HasPrefix(sc.Name, "__Host-") {
